@@ -796,6 +796,10 @@ class CatModel:
 
     def _cmd_cb(self, kind, name, args, s, it, n):
         ret = self.fresh_site(s, it, n, 'R@' + kind, 'int')
+        if name.startswith('UCMD') or name.startswith('EV['):
+            # an *event* handler returning HOLD has no meaning in cat.h (observation O1): excluded from the domain
+            s.facts.assume_ne(ret, it.prog.enums['CAT_RETURN_STATE_HOLD'])
+            s.ev('assume', n, what='event-handler-does-not-return-HOLD')
         s.ev('cb', n, kind=kind, fn=name, args=list(args), ret=ret,
              facts=self.snapshot_obj(name.rpartition('.')[0], s))
         # read/test handlers get (cmd, data, &data_size, max_data_size): they may rewrite the buffer and the size
